@@ -121,20 +121,26 @@ class AnalyticalErrors(E2Contract):
     n_conformance = 1
 
     def configs(self, tier):
-        out = [("qst", True), ("qst", False), ("povmt", True), ("povmt", False), ("qpt", True), ("qmpt", True)]
+        out = [("qst", True), ("qst", False), ("povmt", True), ("povmt", False), ("qpt", True), ("qmpt", True),
+               # a 3-outcome unknown POVM (the implied last element is one of three) and testers with outcome counts 2, 3, 2, 2
+               ("povmt", True, "m3"), ("qst", True, "mixed")]
         if tier == "thorough":
-            out += [("qpt", False), ("qmpt", False)]
+            out += [("qpt", False), ("qmpt", False), ("povmt", False, "m3"), ("qst", False, "mixed")]
         return out
 
     def _setup(self, W, cfg):
-        kind, on_para = cfg
-        c_sys, states, povms = exact_testers(W, "1q", False)
-        m_unknown = 2
+        kind, on_para = cfg[0], cfg[1]
+        variant = cfg[2] if len(cfg) > 2 else "std"
+        c_sys, states, povms = exact_testers(W, "1q", variant == "mixed")
+        if variant == "mixed":
+            states = states[:4]
+            povms = [povms[0], povms[3], povms[1], povms[2]]
+        m_unknown = 3 if variant == "m3" else 2
         qt = build_qt(W, kind, dict(states=states, povms=povms), on_para, m_unknown, "all")
         return c_sys, qt, m_unknown
 
     def inputs(self, W, cfg, mk):
-        kind, on_para = cfg
+        kind, on_para = cfg[0], cfg[1]
         c_sys, qt, m_unknown = self._setup(W, cfg)
         ukind = UNKNOWN[kind]
         # the true object is on its equality-constraint set (a physical object's necessary condition): with the flag off the
@@ -157,14 +163,16 @@ class AnalyticalErrors(E2Contract):
 
     def sample(self, cfg, names, rng):
         import math
-        kind, on_para = cfg
+        kind, on_para = cfg[0], cfg[1]
         vals = {n: rng.uniform(-0.03, 0.03) for n in names}
         for n in names:
             if n.startswith("n"):
                 vals[n] = float(rng.randint(10, 1000))
         ukind = UNKNOWN[kind]
         if ukind == "povm":
-            vals["var_0"] = math.sqrt(2) / 2
+            m_unknown = 3 if (len(cfg) > 2 and cfg[2] == "m3") else 2
+            for x in range(m_unknown - 1):
+                vals[f"var_{4 * x}"] = math.sqrt(2) / m_unknown
         if ukind == "gate":
             for k in range(3):
                 vals[f"var_{k * 4 + k + 1}"] = 0.5
@@ -184,12 +192,13 @@ class AnalyticalErrors(E2Contract):
                    mse_obj=qt.calc_mse_linear_analytical(obj, ns, mode="qoperation"),
                    mse_empi=qt.calc_mse_empi_dists_analytical(obj, ns),
                    fisher=[qt.calc_fisher_matrix(j, var) for j in range(qt.num_schedules)])
-        if var.shape[0] <= 4:
+        if var.shape[0] <= 4 and not (len(cfg) > 2 and cfg[2] == "mixed"):
+            # (the symbolic inverse of the total Fisher matrix is out of budget for the 4-schedule, 9-outcome tester set: no Cramer-Rao clause there)
             out["crb"] = qt.calc_cramer_rao_bound(var, N, ns)
         return out
 
     def post(self, W, cfg, inp, out):
-        kind, on_para = cfg
+        kind, on_para = cfg[0], cfg[1]
         np = W.np
         qt, var, ns = inp["qt"], inp["var"], inp["ns"]
         A, b = qt.calc_matA(), qt.calc_vecB()
@@ -249,3 +258,6 @@ class AnalyticalErrors(E2Contract):
             cl.append(eq("cramer-rao-bound", out["crb"], np.trace(J @ Finv @ J.T) / N,
                          "Cramer-Rao bound in object parametrisation == tr(J F^-1 J^T) / N with F = sum_j (n_j/N) F_j"))
         return cl
+
+    def canary(self, W, cfg, inp, out):
+        return [eq("canary", out["mse_empi"], 2 * out["mse_empi"] + 1, "(false) the MSE of the empirical distributions is an affine function of itself")]
